@@ -34,7 +34,9 @@ type cacheRequest struct {
 	reqDO bool
 
 	// isECSDeclined reflects if the client explicitly restricts using its
-	// information in EDNS client subnet option as per RFC 7871.
+	// information in EDNS client subnet option as per RFC 7871.  It is also
+	// true if there is no subnet for the location of the client, since the
+	// zero-length prefix is sent to the upstream in both cases.
 	//
 	// See https://datatracker.ietf.org/doc/html/rfc7871#section-7.1.2.
 	isECSDeclined bool
